@@ -1,0 +1,310 @@
+//go:build verif
+
+package service
+
+// Machine-checked contracts for package service (verification build only); read by /verif/govc.
+//
+// Ring buffer (C14, C15, C17): single producer / single consumer. Each function is verified sequentially plus
+// interference: at every yield point (atomic cursor read, isDone, Lock, Cond.Wait) the other goroutine may have run;
+// what it may have changed is the function's `rely` (DESIGN 2.5). Producer functions rely on: the consumer cursor only
+// grows and never passes the producer cursor, the consumer never writes the ring. Consumer functions rely on: the
+// producer cursor only grows, never more than `size` ahead of the consumer cursor, and bytes between the two cursors
+// are never overwritten.
+
+//@ property C14 roots (*sequence).get, (*sequence).set, (*buffer).isDone, (*buffer).Len, (*buffer).waitForWriteSpace, (*buffer).WriteWait, (*buffer).WriteCommit, (*buffer).Write, ringCopy, (*buffer).ReadPeek, (*buffer).ReadWait, (*buffer).ReadCommit, (*buffer).Read, (*buffer).Close, (*buffer).ReadFrom, (*buffer).WriteTo
+
+func vspecWrapI(x int64, size int64) int64 {
+	if x >= size {
+		return x - size
+	}
+	return x
+}
+
+// ring index x lies in the c positions written from start (with one wrap)
+func vspecCovered(x int64, start int64, c int64, size int64) bool {
+	return (start <= x && x < start+c) || x < start+c-size
+}
+
+// ---------------------------------------------------------------- trusted externals (sync, sync/atomic)
+
+//@ extern sync/atomic.LoadInt64
+//@   pure
+//@   ensures result == *addr
+//@ extern sync/atomic.StoreInt64
+//@   pure
+//@   ensures *addr == val
+//@   modifies *addr
+//@ extern sync/atomic.AddInt64
+//@   pure
+//@   ensures *addr == old(*addr)+delta && result == *addr
+//@   modifies *addr
+
+// sync.Locker / sync.Cond: lock discipline only (DESIGN 2.5, C15). Blocking calls are yield points.
+//@ iface sync.Locker.Lock
+//@   trusted
+//@   pure
+//@   flag lock acquire
+//@   flag yield
+//@   ensures gfield(0, "clock") == old(gfield(0, "clock"))+1 && gfield(self, "lockedAt") == gfield(0, "clock")
+//@   modifies gfield(0, "clock"), gfield(self, "lockedAt")
+//@ iface sync.Locker.Unlock
+//@   trusted
+//@   pure
+//@   flag lock release
+
+// Assumed: exported error variables of io / bufio and this package's own are never reassigned or nil.
+//@ axiom errvars
+//@   is io.EOF != nil && bufio.ErrBufferFull != nil && bufio.ErrNegativeCount != nil && ErrBufferInsufficientData != nil && ErrBufferNotReady != nil && ErrBufferInsufficientData != bufio.ErrNegativeCount && ErrBufferInsufficientData != bufio.ErrBufferFull && ErrBufferInsufficientData != io.EOF
+
+// The ring-buffer structure: power-of-two size, cursors ordered gate <= consumer <= producer <= gate+size.
+//@ define vdefRing(bf)
+//@   is bf.size >= 16384 && pow2(bf.size) && bf.size <= 1099511627776 && bf.mask == bf.size-1 && len(bf.buf) == int(bf.size) && bf.pseq != nil && bf.cseq != nil && bf.pseq != bf.cseq
+//@      && bf.pcond != nil && bf.ccond != nil && bf.pcond != bf.ccond && ifaceval(bf.pcond.L, *sync.Mutex) != nil && ifaceval(bf.ccond.L, *sync.Mutex) != nil && ifaceval(bf.pcond.L, *sync.Mutex) != ifaceval(bf.ccond.L, *sync.Mutex) && arr(bf.tmp) != arr(bf.buf)
+//@      && typeis(bf.pcond.L, *sync.Mutex) && typeis(bf.ccond.L, *sync.Mutex)
+//@      && 0 <= bf.pseq.gate && bf.pseq.gate <= bf.cseq.cursor && bf.cseq.cursor <= bf.pseq.cursor && bf.pseq.cursor <= bf.pseq.gate+bf.size
+
+// Consumer's view of the data: gh_stream is the (fixed) sequence of all bytes the producer commits, indexed by
+// absolute position; everything between the two cursors is in the ring at its position modulo size.
+//@ define vdefStream(bf)
+//@   is forall(int(bf.cseq.cursor), int(bf.pseq.cursor), func(j int) bool { return bf.buf[int64(j)&bf.mask] == byte(gh_stream[j]) })
+
+// Assumed (not proved): fewer than 2^61 bytes have passed through a ring, so cursor arithmetic does not overflow
+// and the 64-bit index lemmas apply. Stated as a range assumption on the cursor fields.
+//@ fieldrange service.sequence.cursor 0 2305843009213693952
+//@ fieldrange service.sequence.gate 0 2305843009213693952
+//@ define vdefRingB(bf)
+//@   is vdefRing(bf)
+
+// A ghost clock orders lock acquisitions and reads of the wait predicates (C15: a waiter must have read its
+// predicate after taking the lock it waits under, otherwise a wake-up can be lost).
+//@ func (*sequence).get
+//@   pure
+//@   flag yield
+//@   ensures result == sq.cursor
+//@   ensures[ghostdef-clock] gfield(0, "clock") == old(gfield(0, "clock"))+1 && gfield(sq, "readAt") == gfield(0, "clock")
+//@   modifies gfield(0, "clock"), gfield(sq, "readAt")
+
+//@ func (*sequence).set
+//@   ensures sq.cursor == seq
+//@   modifies sq.cursor
+
+//@ func (*buffer).isDone
+//@   pure
+//@   flag yield
+//@   ensures result == (bf.done == 1)
+
+//@ func (*buffer).Len
+//@   nooverflow
+//@   requires vdefRingB(bf)
+//@   rely modifies bf.cseq.cursor, bf.pseq.cursor
+//@   rely ensures bf.cseq.cursor >= old(bf.cseq.cursor) && bf.pseq.cursor >= old(bf.pseq.cursor) && bf.cseq.cursor <= bf.pseq.cursor && bf.pseq.cursor <= bf.cseq.cursor+bf.size
+//@   ensures 0 <= result
+
+//@ extern (*sync.Cond).Wait
+//@   pure
+//@   flag yield
+//@   requires[C15:wait-holds-lock] held(ifaceval(c.L, *sync.Mutex))
+// Broadcast counts wake-ups in a ghost field so that callers can be required to signal.
+//@ extern (*sync.Cond).Broadcast
+//@   pure
+//@   requires[C15:broadcast-under-lock] held(ifaceval(c.L, *sync.Mutex))
+//@   ensures gfield(c, "bcast") == old(gfield(c, "bcast"))+1
+//@   modifies gfield(c, "bcast")
+
+// Producer side: what the consumer may do meanwhile.
+//@ func (*buffer).waitForWriteSpace
+//@   results start, cnt, err
+//@   nooverflow
+//@   requires vdefRingB(bf) && 0 <= n && n <= 1073741824 && !held(ifaceval(bf.pcond.L, *sync.Mutex))
+//@   rely modifies bf.cseq.cursor, bf.done
+//@   rely ensures bf.cseq.cursor >= old(bf.cseq.cursor) && bf.cseq.cursor <= bf.pseq.cursor && (old(bf.done) == 1 ==> bf.done == 1)
+//@   loop 1 invariant[C15:progress] int64(n) <= bf.size
+//@   loop 1 invariant heldonly(bf.pcond.L) && vdefRing(bf) && cpos <= bf.cseq.cursor && old(bf.pseq.gate) <= cpos && bf.pseq.gate == old(bf.pseq.gate) && bf.pseq.cursor == old(bf.pseq.cursor)
+//@   ensures[C14:ring] vdefRing(bf) && bf.pseq.cursor == old(bf.pseq.cursor) && bf.pseq.gate >= old(bf.pseq.gate)
+//@   ensures[C14:space] err == nil ==> start == bf.pseq.cursor && cnt == n && start+int64(n)-bf.size <= bf.pseq.gate
+//@   ensures[C15:oversize] int64(n) > bf.size ==> err != nil
+//@   modifies bf.pseq.gate, bf.pwait
+
+// ringCopy: copies src into the ring dst starting at index start, wrapping around the end once.
+//@ func ringCopy
+//@   requires len(dst) > 0 && 0 <= start && start < int64(len(dst)) && len(src) <= len(dst) && (arr(src) != arr(dst) || len(src) == 0)
+//@   loop 1 invariant[geom] 0 <= n && i+n == len(src) && 0 <= i && 0 <= start && start < int64(len(dst))
+//@   loop 1 invariant[pos] (i == 0 ==> start == start_0) && (i > 0 && n > 0 ==> start == 0 && int64(i) == int64(len(dst))-start_0)
+//@   loop 1 invariant[done] forall(0, i, func(k int) bool { return dst[vspecWrapI(start_0+int64(k), int64(len(dst)))] == src[k] })
+//@   loop 1 invariant[frame] samearr(src) && unchangedoutside(dst, 0, len(dst)) && forall(0, len(dst), func(x int) bool { return !vspecCovered(int64(x), start_0, int64(i), int64(len(dst))) ==> dst[x] == old(dst[x]) })
+//@   loop 1 decreases n
+//@   ensures[C14:copied] result == len(src) && forall(0, len(src), func(k int) bool { return dst[vspecWrapI(start+int64(k), int64(len(dst)))] == src[k] })
+//@   ensures[C14:rest] forall(0, len(dst), func(x int) bool { return !vspecCovered(int64(x), start, int64(len(src)), int64(len(dst))) ==> dst[x] == old(dst[x]) })
+//@   modifies elems(dst)
+
+// WriteWait: reserve n bytes at the producer cursor. Either the n bytes are contiguous (no wrap) and the returned
+// slice is exactly that region of the ring, or they wrap and the slice is the tail of the ring.
+//@ func (*buffer).WriteWait
+//@   results b, wrap, err
+//@   nooverflow
+//@   requires vdefRingB(bf) && 0 <= n && n <= 1073741824 && !held(ifaceval(bf.pcond.L, *sync.Mutex))
+//@   rely modifies bf.cseq.cursor, bf.done
+//@   rely ensures bf.cseq.cursor >= old(bf.cseq.cursor) && bf.cseq.cursor <= bf.pseq.cursor && (old(bf.done) == 1 ==> bf.done == 1)
+//@   ensures[C14:ring] vdefRing(bf) && bf.pseq.cursor == old(bf.pseq.cursor) && bf.pseq.gate >= old(bf.pseq.gate)
+//@   ensures[C14:space] err == nil ==> bf.pseq.cursor+int64(n)-bf.size <= bf.pseq.gate
+//@   ensures[C14:nowrap] err == nil && !wrap ==> (bf.pseq.cursor&bf.mask)+int64(n) <= bf.size && sameslice(b, bf.buf[bf.pseq.cursor&bf.mask:(bf.pseq.cursor&bf.mask)+int64(n)])
+//@   ensures[C14:wrap] err == nil && wrap ==> (bf.pseq.cursor&bf.mask)+int64(n) > bf.size && sameslice(b, bf.buf[bf.pseq.cursor&bf.mask:])
+//@   ensures[C14:none] err != nil ==> len(b) == 0
+//@   modifies bf.pseq.gate, bf.pwait
+
+// WriteCommit: publish n bytes written into the reserved region.
+//@ func (*buffer).WriteCommit
+//@   results cnt, err
+//@   nooverflow
+//@   requires vdefRingB(bf) && 0 <= n && n <= 1073741824 && !held(ifaceval(bf.pcond.L, *sync.Mutex)) && !held(ifaceval(bf.ccond.L, *sync.Mutex))
+//@   rely modifies bf.cseq.cursor, bf.done
+//@   rely ensures bf.cseq.cursor >= old(bf.cseq.cursor) && bf.cseq.cursor <= bf.pseq.cursor && (old(bf.done) == 1 ==> bf.done == 1)
+//@   ensures[C14:ring] vdefRing(bf) && bf.pseq.gate >= old(bf.pseq.gate)
+//@   ensures[C14:commit] err == nil ==> cnt == n && bf.pseq.cursor == old(bf.pseq.cursor)+int64(n)
+//@   ensures[C14:none] err != nil ==> cnt == 0 && bf.pseq.cursor == old(bf.pseq.cursor)
+//@   ensures[C15:signal] err == nil ==> gfield(bf.ccond, "bcast") > old(gfield(bf.ccond, "bcast"))
+//@   modifies bf.pseq.gate, bf.pwait, bf.pseq.cursor, gfield(bf.ccond, "bcast")
+
+// Write: copy p into the ring at the producer cursor (wrapping) and publish it. Nothing between the gate
+// (a lower bound of the consumer cursor) and the old producer cursor is overwritten.
+//@ func (*buffer).Write
+//@   results r, err
+//@   nooverflow
+//@   requires vdefRingB(bf) && len(p) <= 1073741824 && (arr(p) != arr(bf.buf) || len(p) == 0) && !held(ifaceval(bf.pcond.L, *sync.Mutex)) && !held(ifaceval(bf.ccond.L, *sync.Mutex))
+//@   rely modifies bf.cseq.cursor, bf.done
+//@   rely ensures bf.cseq.cursor >= old(bf.cseq.cursor) && bf.cseq.cursor <= bf.pseq.cursor && (old(bf.done) == 1 ==> bf.done == 1)
+//@   ensures[C14:ring] vdefRing(bf) && bf.pseq.gate >= old(bf.pseq.gate)
+//@   ensures[C14:commit] err == nil ==> r == len(p) && bf.pseq.cursor == old(bf.pseq.cursor)+int64(len(p))
+//@   ensures[C14:data] err == nil ==> forall(0, len(p), func(k int) bool { return bf.buf[(old(bf.pseq.cursor)+int64(k))&bf.mask] == p[k] })
+//@   ensures[C14:unread] forall(0, int(bf.size), func(x int) bool { return !vspecCovered(int64(x), old(bf.pseq.cursor)&bf.mask, int64(len(p)), bf.size) ==> bf.buf[x] == old(bf.buf[x]) })
+//@   ensures[C14:none] err != nil ==> r == 0 && bf.pseq.cursor == old(bf.pseq.cursor) && samearr(bf.buf)
+//@   ensures[C15:signal] err == nil ==> gfield(bf.ccond, "bcast") > old(gfield(bf.ccond, "bcast"))
+//@   modifies bf.pseq.gate, bf.pwait, bf.pseq.cursor, elems(bf.buf), gfield(bf.ccond, "bcast")
+
+// ---------------------------------------------------------------- consumer side
+// rely: the producer only appends after its cursor; the unread region [consumer cursor, producer cursor) is stable.
+
+//@ func (*buffer).ReadCommit
+//@   results r, err
+//@   nooverflow
+//@   requires vdefRingB(bf) && !held(ifaceval(bf.pcond.L, *sync.Mutex))
+//@   rely modifies bf.pseq.cursor, bf.pseq.gate, bf.done, bf.pwait, elems(bf.buf)
+//@   rely ensures bf.pseq.cursor >= old(bf.pseq.cursor) && bf.pseq.cursor <= bf.pseq.gate+bf.size && bf.pseq.gate >= old(bf.pseq.gate) && bf.pseq.gate <= bf.cseq.cursor && (old(bf.done) == 1 ==> bf.done == 1)
+//@   ensures[C14:ring] vdefRing(bf)
+//@   ensures[C14:commit] err == nil ==> r == n && 0 <= n && bf.cseq.cursor == old(bf.cseq.cursor)+int64(n) && bf.cseq.cursor <= bf.pseq.cursor
+//@   ensures[C14:none] err != nil ==> r == 0 && bf.cseq.cursor == old(bf.cseq.cursor)
+//@   ensures[C15:signal] err == nil ==> gfield(bf.pcond, "bcast") > old(gfield(bf.pcond, "bcast"))
+//@   modifies bf.cseq.cursor, gfield(bf.pcond, "bcast")
+
+// ReadWait: wait until n bytes are available and return them (in place, or assembled in tmp when they wrap).
+//@ func (*buffer).ReadWait
+//@   results b, err
+//@   nooverflow
+//@   requires vdefRingB(bf) && vdefStream(bf) && !held(ifaceval(bf.ccond.L, *sync.Mutex))
+//@   rely modifies bf.pseq.cursor, bf.pseq.gate, bf.done, bf.pwait, elems(bf.buf)
+//@   rely ensures bf.pseq.cursor >= old(bf.pseq.cursor) && bf.pseq.cursor <= bf.pseq.gate+bf.size && bf.pseq.gate >= old(bf.pseq.gate) && bf.pseq.gate <= bf.cseq.cursor && (old(bf.done) == 1 ==> bf.done == 1)
+//@   rely ensures vdefStream(bf)
+//@   atcall (*sync.Cond).Wait requires[C15:fresh-predicate] gfield(bf.pseq, "readAt") > gfield(bf.ccond.L, "lockedAt")
+//@   loop 1 invariant heldonly(bf.ccond.L) && vdefRing(bf) && vdefStream(bf) && bf.cseq.cursor == old(bf.cseq.cursor) && ppos <= bf.pseq.cursor && 0 <= n && int64(n) <= bf.size
+//@   loop 1 invariant[C15:fresh-predicate] gfield(bf.pseq, "readAt") > gfield(bf.ccond.L, "lockedAt") && gfield(0, "clock") >= gfield(bf.ccond.L, "lockedAt")
+//@   loop 1 invariant[frame] unchangedoutside(bf.buf, 0, len(bf.buf)) && sameslice(bf.tmp, old(bf.tmp))
+//@   ensures[C14:ring] vdefRing(bf) && bf.cseq.cursor == old(bf.cseq.cursor)
+//@   ensures[C14:data] err == nil ==> len(b) == n && bf.cseq.cursor+int64(n) <= bf.pseq.cursor && forall(0, n, func(k int) bool { return b[k] == byte(gh_stream[int(bf.cseq.cursor)+k]) })
+//@   ensures[C14:tmp] fresh(arr(bf.tmp)) || (arr(bf.tmp) == arr(old(bf.tmp)) && off(bf.tmp) == off(old(bf.tmp)) && cap(bf.tmp) == cap(old(bf.tmp)))
+//@   ensures[C05:size] int64(n) > bf.size ==> err != nil
+//@   modifies bf.tmp, capelems(bf.tmp)
+
+// ReadPeek: return up to n available bytes without consuming them (at least one; waits while the ring is empty).
+//@ func (*buffer).ReadPeek
+//@   results b, err
+//@   nooverflow
+//@   requires vdefRingB(bf) && vdefStream(bf) && !held(ifaceval(bf.ccond.L, *sync.Mutex))
+//@   rely modifies bf.pseq.cursor, bf.pseq.gate, bf.done, bf.pwait, elems(bf.buf)
+//@   rely ensures bf.pseq.cursor >= old(bf.pseq.cursor) && bf.pseq.cursor <= bf.pseq.gate+bf.size && bf.pseq.gate >= old(bf.pseq.gate) && bf.pseq.gate <= bf.cseq.cursor && (old(bf.done) == 1 ==> bf.done == 1)
+//@   rely ensures vdefStream(bf)
+//@   atcall (*sync.Cond).Wait requires[C15:fresh-predicate] gfield(bf.pseq, "readAt") > gfield(bf.ccond.L, "lockedAt")
+//@   loop 1 invariant heldonly(bf.ccond.L) && vdefRing(bf) && vdefStream(bf) && bf.cseq.cursor == old(bf.cseq.cursor) && ppos <= bf.pseq.cursor && 0 <= n && int64(n) <= bf.size
+//@   loop 1 invariant[C15:fresh-predicate] gfield(bf.pseq, "readAt") > gfield(bf.ccond.L, "lockedAt") && gfield(0, "clock") >= gfield(bf.ccond.L, "lockedAt")
+//@   loop 1 invariant[frame] unchangedoutside(bf.buf, 0, len(bf.buf)) && sameslice(bf.tmp, old(bf.tmp)) && bf.cwait >= old(bf.cwait)
+//@   ensures[C14:ring] vdefRing(bf) && bf.cseq.cursor == old(bf.cseq.cursor)
+//@   ensures[C14:data] err == nil || err == ErrBufferInsufficientData ==> len(b) <= n && bf.cseq.cursor+int64(len(b)) <= bf.pseq.cursor && forall(0, len(b), func(k int) bool { return b[k] == byte(gh_stream[int(bf.cseq.cursor)+k]) })
+//@   ensures[C14:full] err == nil ==> len(b) == n
+//@   ensures[C14:none] !(err == nil || err == ErrBufferInsufficientData) ==> len(b) == 0
+//@   ensures[C14:tmp] fresh(arr(bf.tmp)) || (arr(bf.tmp) == arr(old(bf.tmp)) && off(bf.tmp) == off(old(bf.tmp)) && cap(bf.tmp) == cap(old(bf.tmp)))
+//@   ensures[C05:size] int64(n) > bf.size ==> err != nil
+//@   modifies bf.tmp, capelems(bf.tmp), bf.cwait
+
+// Close: mark the buffer done and wake both sides, each under its own lock.
+//@ func (*buffer).Close
+//@   requires vdefRingB(bf) && !held(ifaceval(bf.pcond.L, *sync.Mutex)) && !held(ifaceval(bf.ccond.L, *sync.Mutex))
+//@   ensures[C15:close] bf.done == 1 && gfield(bf.pcond, "bcast") > old(gfield(bf.pcond, "bcast")) && gfield(bf.ccond, "bcast") > old(gfield(bf.ccond, "bcast"))
+//@   modifies bf.done, gfield(bf.pcond, "bcast"), gfield(bf.ccond, "bcast")
+
+// Read: copy up to len(p) available bytes into p and consume them; waits while the ring is empty.
+//@ func (*buffer).Read
+//@   results r, err
+//@   nooverflow
+//@   requires vdefRingB(bf) && vdefStream(bf) && len(p) <= 1073741824 && (arr(p) != arr(bf.buf) || len(p) == 0) && !held(ifaceval(bf.ccond.L, *sync.Mutex)) && !held(ifaceval(bf.pcond.L, *sync.Mutex))
+//@   rely modifies bf.pseq.cursor, bf.pseq.gate, bf.done, bf.pwait, elems(bf.buf)
+//@   rely ensures bf.pseq.cursor >= old(bf.pseq.cursor) && bf.pseq.cursor <= bf.pseq.gate+bf.size && bf.pseq.gate >= old(bf.pseq.gate) && bf.pseq.gate <= bf.cseq.cursor && (old(bf.done) == 1 ==> bf.done == 1)
+//@   rely ensures vdefStream(bf)
+//@   atcall (*sync.Cond).Wait requires[C15:fresh-predicate] gfield(bf.pseq, "readAt") > gfield(bf.ccond.L, "lockedAt")
+//@   loop 1 invariant vdefRing(bf) && vdefStream(bf) && bf.cseq.cursor == old(bf.cseq.cursor) && heldsame()
+//@   loop 1 invariant[frame] unchangedoutside(bf.buf, 0, len(bf.buf)) && unchanged(p) && gfield(bf.pcond, "bcast") == old(gfield(bf.pcond, "bcast"))
+//@   loop 2 invariant heldonly(bf.ccond.L) && vdefRing(bf) && vdefStream(bf) && bf.cseq.cursor == old(bf.cseq.cursor) && ppos <= bf.pseq.cursor
+//@   loop 2 invariant[C15:fresh-predicate] gfield(bf.pseq, "readAt") > gfield(bf.ccond.L, "lockedAt") && gfield(0, "clock") >= gfield(bf.ccond.L, "lockedAt")
+//@   loop 2 invariant[frame] unchangedoutside(bf.buf, 0, len(bf.buf)) && unchanged(p) && gfield(bf.pcond, "bcast") == old(gfield(bf.pcond, "bcast"))
+//@   ensures[C14:ring] vdefRing(bf)
+//@   ensures[C14:consume] err == nil ==> 0 <= r && r <= len(p) && bf.cseq.cursor == old(bf.cseq.cursor)+int64(r) && bf.cseq.cursor <= bf.pseq.cursor
+//@   ensures[C14:data] err == nil ==> forall(0, r, func(k int) bool { return p[k] == byte(gh_stream[int(old(bf.cseq.cursor))+k]) })
+//@   ensures[C14:none] err != nil ==> r == 0 && bf.cseq.cursor == old(bf.cseq.cursor) && unchanged(p)
+//@   ensures[C15:signal] err == nil ==> gfield(bf.pcond, "bcast") > old(gfield(bf.pcond, "bcast"))
+//@   modifies bf.cseq.cursor, bf.cwait, elems(p), gfield(bf.pcond, "bcast")
+
+// ---------------------------------------------------------------- socket pumps
+// io.Reader / io.Writer as documented: Read fills at most len(p) bytes of p and touches nothing else;
+// Write reads p only and reports an error when it wrote less than len(p).
+//@ iface io.Reader.Read
+//@   trusted
+//@   results n, err
+//@   flag args self, p
+//@   flag yield
+//@   ensures 0 <= n && n <= len(p)
+//@   modifies elems(p)
+//@ iface io.Writer.Write
+//@   trusted
+//@   results n, err
+//@   flag args self, p
+//@   flag yield
+//@   ensures 0 <= n && n <= len(p) && (n < len(p) ==> err != nil)
+
+// ReadFrom (producer): every block handed to the reader is exactly the free region reserved at the producer
+// cursor (at most one read block, never wrapping, never reaching unread data), and only what was read is committed.
+//@ func (*buffer).ReadFrom
+//@   results total, err
+//@   nooverflow
+//@   requires vdefRingB(bf) && r != nil && !held(ifaceval(bf.pcond.L, *sync.Mutex)) && !held(ifaceval(bf.ccond.L, *sync.Mutex))
+//@   rely modifies bf.cseq.cursor, bf.done
+//@   rely ensures bf.cseq.cursor >= old(bf.cseq.cursor) && bf.cseq.cursor <= bf.pseq.cursor && (old(bf.done) == 1 ==> bf.done == 1)
+//@   atcall io.Reader.Read requires[C14:granted-region] arr(p) == arr(bf.buf) && off(p) == off(bf.buf)+int(bf.pseq.cursor&bf.mask) && len(p) <= 8192 && int(bf.pseq.cursor&bf.mask)+len(p) <= int(bf.size) && bf.pseq.cursor+int64(len(p))-bf.size <= bf.pseq.gate
+//@   loop 1 invariant vdefRing(bf) && heldsame() && 0 <= total && total == bf.pseq.cursor-old(bf.pseq.cursor)
+//@   loop 1 invariant[frame] unchangedoutside(bf.buf, 0, len(bf.buf)) && preservedexcept(bf.buf)
+//@   ensures[C14:ring] vdefRing(bf) && bf.pseq.cursor >= old(bf.pseq.cursor)
+//@   ensures[C15:close] bf.done == 1
+//@   modifies bf.pseq.gate, bf.pwait, bf.pseq.cursor, bf.done, elems(bf.buf), gfield(bf.ccond, "bcast"), gfield(bf.pcond, "bcast")
+
+// WriteTo (consumer): every block handed to the writer is the next bytes of the stream, and exactly what the
+// writer accepted is consumed.
+//@ func (*buffer).WriteTo
+//@   results total, err
+//@   nooverflow
+//@   requires vdefRingB(bf) && vdefStream(bf) && w != nil && !held(ifaceval(bf.pcond.L, *sync.Mutex)) && !held(ifaceval(bf.ccond.L, *sync.Mutex))
+//@   rely modifies bf.pseq.cursor, bf.pseq.gate, bf.done, bf.pwait, elems(bf.buf)
+//@   rely ensures bf.pseq.cursor >= old(bf.pseq.cursor) && bf.pseq.cursor <= bf.pseq.gate+bf.size && bf.pseq.gate >= old(bf.pseq.gate) && bf.pseq.gate <= bf.cseq.cursor && (old(bf.done) == 1 ==> bf.done == 1)
+//@   rely ensures vdefStream(bf)
+//@   atcall io.Writer.Write requires[C14:in-order] bf.cseq.cursor+int64(len(p)) <= bf.pseq.cursor && forall(0, len(p), func(k int) bool { return p[k] == byte(gh_stream[int(bf.cseq.cursor)+k]) })
+//@   loop 1 invariant vdefRing(bf) && vdefStream(bf) && heldsame() && 0 <= total && total == bf.cseq.cursor-old(bf.cseq.cursor)
+//@   loop 1 invariant[frame] unchangedoutside(bf.buf, 0, len(bf.buf)) && preservedexcept(bf.buf, bf.tmp) && unchangedoutside(old(bf.tmp), 0, cap(old(bf.tmp))) && (fresh(arr(bf.tmp)) || (arr(bf.tmp) == arr(old(bf.tmp)) && off(bf.tmp) == off(old(bf.tmp)) && cap(bf.tmp) == cap(old(bf.tmp))))
+//@   ensures[C14:ring] vdefRing(bf) && bf.cseq.cursor >= old(bf.cseq.cursor)
+//@   ensures[C15:close] bf.done == 1
+//@   modifies bf.cseq.cursor, bf.cwait, bf.tmp, capelems(bf.tmp), bf.done, gfield(bf.ccond, "bcast"), gfield(bf.pcond, "bcast")
